@@ -248,6 +248,7 @@ def run(ctx):
     ctx.ob(R5, f"{C}._utils::_cost_existance_check::disjunction", len(ors) >= 2, "single check combines poly/pwl with 'or'", fs.loc())
     rule_series_align(ctx)
     rule_batch_guards(ctx)
+    rule_index_table(ctx)
 
 
 def rule_series_align(ctx):
@@ -340,6 +341,38 @@ def rule_batch_guards(ctx):
            "the explicit tap_changer_type is assigned before params.update(<standard type>): the type's value overwrites the argument", ft.loc(expl[0]) if expl else ft.loc())
 
 
+def rule_index_table(ctx):
+    """a creator checks new indices against, and writes its rows into, one and the same table"""
+    R = "INDEX-TABLE"
+    ctx.rule(R, "in every creation function the table name handed to _get_index_with_check / _get_multiple_index_with_check is the table "
+                "name handed to _set_entries / _set_multiple_entries (and to _add_to_entries_if_not_nan): an index is checked against the "
+                "table the rows are written to")
+    n = 0
+    for mn in ctx.repo.module_names():
+        if not mn.startswith(f"{C}.") or mn.endswith("._utils"):
+            continue
+        for fi in ctx.repo.module(mn).functions.values():
+            chk, wr = set(), set()
+            first = None
+            for c in ast.walk(fi.node):
+                if isinstance(c, ast.Call) and isinstance(c.func, ast.Name) and len(c.args) >= 2 and isinstance(c.args[1], ast.Constant) and isinstance(c.args[1].value, str):
+                    if c.func.id in ("_get_index_with_check", "_get_multiple_index_with_check"):
+                        chk.add(c.args[1].value)
+                        first = first or c
+                    elif c.func.id in ("_set_entries", "_set_multiple_entries"):
+                        wr.add(c.args[1].value)
+            if not chk or not wr:
+                continue
+            n += 1
+            ok = chk == wr
+            ctx.ob(R, f"{mn}::{fi.qualname}::index-table", ok,
+                   f"index checked against and rows written to {sorted(wr)}" if ok else
+                   f"{fi.qualname} checks the new indices against {sorted(chk)} but writes the rows to {sorted(wr)}: an index that exists in "
+                   f"{sorted(wr)} is accepted (duplicate index), the single creator rejects it", fi.loc(first))
+    if n < 40:
+        ctx.fail(f"INDEX-TABLE: only {n} creation functions with an index check and a table write found (confirmed: > 40)")
+
+
 def variants(repo):
     t = "pandapower/create/trafo_create.py"
     l = "pandapower/create/line_create.py"
@@ -353,6 +386,7 @@ def variants(repo):
         V("batch lines drop zero sequence", l, in_function("create_lines", lambda s: s.replace('            for param in ("r0_ohm_per_km", "x0_ohm_per_km", "c0_nf_per_km"):\n                entries[param] = lineparam[param]\n', '            pass\n', 1)), "create_lines::x0_ohm_per_km"),
         V("batch dc lines drop alpha", l, in_function("create_lines_dc", lambda s: s.replace('        if "alpha" in net.line.columns and "alpha" in lineparam:\n            entries["alpha"] = lineparam["alpha"]\n', '', 1)), "create_lines_dc::alpha"),
         V("pwl power_type filter without guard", u, in_function("_costs_existance_check", replace_once("        if isinstance(power_type, str):\n            pwl_exist &= (net.pwl_cost.power_type == power_type).values", "        pwl_exist &= (net.pwl_cost.power_type == power_type).values")), "power-type-filter"),
+        V("wards checked against the storage table", "pandapower/create/ward_create.py", replace_once('index = _get_multiple_index_with_check(net, "ward", index, len(buses))', 'index = _get_multiple_index_with_check(net, "storage", index, len(buses))'), "INDEX-TABLE"),
         V("empty table skips the duplicate check", u, replace_once("    u, c = uni(index, return_counts=True)\n", "    if not len(net[table]):\n        return index\n    u, c = uni(index, return_counts=True)\n"), "BATCH-GUARD"),
         V("zero sequence decided by the first type", l, in_function("create_lines", lambda s: s.replace('        for param in ("r0_ohm_per_km", "x0_ohm_per_km", "c0_nf_per_km"):\n            if any(param in line_param_dict for line_param_dict in lineparam):\n', '        if "r0_ohm_per_km" in lineparam[0]:\n            for param in ("r0_ohm_per_km", "x0_ohm_per_km", "c0_nf_per_km"):\n', 1)), "BATCH-GUARD"),
         V("series kept by label on partial overlap", u, replace_once("not np_all(isin(val.index, index))", "not np_any(isin(val.index, index))"), "SERIES-ALIGN"),
